@@ -101,6 +101,10 @@ def candidates(node, path=()):
                 yield lbl, (k, kids[:i] + (sub,) + kids[i + 1:], mn, mx)
             if k == 'c':
                 yield 'choose-branch', ('s', (kids[i],), mn, mx)
+                # two steps: the branch alone, with another occurrence range (an element particle against a choice)
+                for o in OCC:
+                    if o != M.occ(kids[i]):
+                        yield 'choose-branch+' + occ_label(M.occ(kids[i]), o), ('s', (kids[i][:-2] + o,), mn, mx)
         yield f'add-particle:{kind}', (k, kids + (('e', 'c', 1, 1),), mn, mx)
         yield f'add-optional-particle:{kind}', (k, kids + (('e', 'c', 0, 1),), mn, mx)
         if k in 'sc' and len(kids) > 1:
@@ -110,6 +114,10 @@ def candidates(node, path=()):
 
 def family(label):
     """Coarse family of an edit label (the mechanism key of unsound acceptances)."""
+    if label.startswith('choose-branch+'):
+        # taking one branch of a choice is sound by itself: an unsound result is the doing of the second step
+        second = family(label[len('choose-branch+'):])
+        return second if second == 'occurrence-range-widened' else 'choose-branch+' + second
     head = label.split(':')[0]
     if head in ('occurs-min-lowered', 'occurs-max-raised', 'occurs-wider-both'):
         return 'occurrence-range-widened'
@@ -154,16 +162,27 @@ def words_for(base, derived, cfg, maxlen):
 def judge_content(res, xmlschema, base, cfg, origin, maxlen, rng, limit):
     base = M.to_tuple(base)
     bmodel = R.Model(base, cfg)
-    if not R.deterministic(bmodel, '1.0')[0]:
+    det10 = R.deterministic(bmodel, '1.0')[0]
+    if not det10 and not R.deterministic(bmodel, '1.1')[0]:
         res.count('base:skipped_nondeterministic')
         return
-    cands = list(dict((c[1], c) for c in candidates(base)).values())
-    rng.shuffle(cands)
-    for label, derived in cands[:limit]:
+    if not det10:
+        res.count('base:deterministic_in_1.1_only')     # an element competing with a wildcard
+    every = list(dict((c[1], c) for c in candidates(base)).values())
+    rng.shuffle(every)
+    cands = [c for c in every if not c[0].startswith('choose-branch+')][:limit]
+    cands += [c for c in every if c[0].startswith('choose-branch+')][:max(3, limit // 3)]
+    import time
+    started = time.monotonic()
+    for label, derived in cands:
+        if time.monotonic() - started > (8 if maxlen <= 5 else 25):
+            # a few counted, nested, nearly ambiguous models cost minutes in the validator: coverage, not verdicts, is cut
+            res.count('base:time_budget_exhausted')
+            break
         if not M.is_group(derived):
             derived = ('s', (derived,), 1, 1)
         for version, cls in (('1.0', xmlschema.XMLSchema10), ('1.1', xmlschema.XMLSchema11)):
-            if version == '1.0' and not (K.expressible_10(base) and K.expressible_10(derived)):
+            if version == '1.0' and not (det10 and K.expressible_10(base) and K.expressible_10(derived)):
                 continue
             text = restriction_schema(base, derived, cfg)
             schema, err = build(cls, text)
@@ -316,6 +335,9 @@ def catalogue():
         (s([e('a'), w('other', 0, 2)]), {}), (s([w('tns', 1, 2)]), {}), (s([('h', 1, 1), e('a', 0, 1)]), {'subst': 'plain'}),
         (s([s([e('a'), e('b')], 0, 2), e('c', 0, 1)]), {}), (c([s([e('a'), e('b')]), e('c')], 0, 2), {}),
         (s([w('any', 0, 1)]), {}), (s([w('other', 0, 1), e('a')]), {}),
+        # XSD 1.1 only: an element and a wildcard that admits it, side by side in a choice
+        (s([c([e('a'), w('any')]), e('b')]), {}), (s([c([e('a'), w('tns', 1, 2)], 1, 2), e('b')]), {}),
+        (s([c([e('a', 1, 2), e('c'), w('tns')]), e('b', 0, 1)]), {}),
     ]
 
 
